@@ -61,6 +61,8 @@ enum Raw {
     Sent(u64),
     Io(Call, Outc),
     Wake(u64),
+    /// a task called handle.write_fire_and_forget for this write
+    SentFF(u64),
     /// a task called handle.truncate(t)
     TruncSent(u64),
     /// the actor started truncate_before (it lists the store)
@@ -364,9 +366,13 @@ struct WriteSpec {
     vlen: usize,
     replica: u64,
     sleep_us: u64,
+    /// added to the stamp on the wire (stamps near 2^32, 2^63, u64::MAX)
+    ts_off: u64,
+    /// sent with write_fire_and_forget (no ack channel)
+    ff: bool,
 }
 fn spec(ts: u64, serial: u64, vlen: usize, sleep_us: u64) -> WriteSpec {
-    WriteSpec { id: ts * 1024 + serial, ts, key: serial, vlen, replica: 1 + serial % 3, sleep_us }
+    WriteSpec { id: ts * 1024 + serial, ts, key: serial, vlen, replica: 1 + serial % 3, sleep_us, ts_off: 0, ff: false }
 }
 fn stamp_of(id: u64) -> u64 {
     id / 1024
@@ -382,17 +388,18 @@ struct Plan {
     shutdown_at_us: Option<u64>,
     /// separate tasks call handle.truncate(t) at these virtual times: (at_us, t)
     truncs: Vec<(u64, u64)>,
+    ts_off: u64,
 }
 
 fn make_delta(s: &WriteSpec) -> ReplicationDelta {
     let replica_id = ReplicaId::new(s.replica);
-    let clock = LamportClock { time: s.ts, replica_id };
+    let clock = LamportClock { time: s.ts_off + s.ts, replica_id };
     let value: String = (0..s.vlen).map(|j| (b'a' + ((s.key as usize + j) % 26) as u8) as char).collect();
     let replicated = ReplicatedValue::with_value(SDS::from_str(&value), clock);
     ReplicationDelta::new(format!("k{:03}", s.key), replicated, replica_id)
 }
 fn entry_bytes(s: &WriteSpec) -> Vec<u8> {
-    WalEntry::from_delta(&make_delta(s), s.ts).unwrap().encode()
+    WalEntry::from_delta(&make_delta(s), s.ts_off + s.ts).unwrap().encode()
 }
 
 #[derive(Clone, Debug, PartialEq, Eq)]
@@ -405,6 +412,7 @@ enum Item {
 #[derive(Clone, Debug, PartialEq, Eq)]
 enum Sched {
     Write(u64, u64),
+    WriteFF(u64, u64),
     Flush,
     Shutdown,
     Trunc(u64),
@@ -413,6 +421,7 @@ struct Run {
     items: Vec<Item>,
     /// the mid-run Shutdown found pending acks (its final flush resolved them)
     shutdown_with_pending: bool,
+    silent: Vec<u64>,
     sched: Vec<Sched>,
     sent: Vec<u64>,
     results: BTreeMap<u64, Result<(), String>>,
@@ -452,6 +461,27 @@ fn recover_image(img: &[(String, &[u8])], truth: &[u64], max_file_size: usize, a
     }
     let mut ids = Vec::new();
     let mut bad = Vec::new();
+    // the other recovery entry point (the one production uses): recover_entries_after(t) must be
+    // recover_all_entries filtered by stamp >= t, as whole deltas, in order
+    if !entries.is_empty() {
+        let mut stamps: Vec<u64> = entries.iter().map(|e| e.timestamp).collect();
+        stamps.sort();
+        let t = match entries.len() % 3 {
+            0 => 0,
+            1 => stamps[stamps.len() / 2],
+            _ => *stamps.last().unwrap(),
+        };
+        let want: Vec<&WalEntry> = entries.iter().filter(|e| e.timestamp >= t).collect();
+        match rot.recover_entries_after(t) {
+            Ok(ds) => {
+                let same = ds.len() == want.len() && ds.iter().zip(want.iter()).all(|(d, e)| WalEntry::from_delta(d, e.timestamp).map(|x| x.data == e.data).unwrap_or(false));
+                if !same {
+                    bad.push(format!("recover_entries_after({}) returned {} deltas, recover_all_entries has {} entries stamped >= {} (or they differ)", t, ds.len(), want.len(), t));
+                }
+            }
+            Err(e) => bad.push(format!("recover_entries_after({}) failed: {}", t, e)),
+        }
+    }
     for e in entries {
         let enc = e.encode();
         match queues.get_mut(enc.as_slice()).and_then(|q| q.pop_front()) {
@@ -520,6 +550,7 @@ fn run_plan(plan: &Plan, init: &Image) -> Run {
         };
         world.lock().unwrap().running = true;
         let mut joins = Vec::new();
+        let ts_off = plan.ts_off;
         for (at, t) in plan.truncs.clone() {
             let h = handle.clone();
             let world = Arc::clone(&world);
@@ -532,7 +563,10 @@ fn run_plan(plan: &Plan, init: &Image) -> Run {
                     w.log(Raw::TruncSent(t));
                     w.trunc_sent.push(t);
                 }
-                h.truncate(t);
+                if t % 2 == 0 {
+                    h.sync_tick(); // a no-op under the Always policy
+                }
+                h.truncate(ts_off.saturating_add(t));
             }));
         }
         for t in &plan.tasks {
@@ -546,7 +580,18 @@ fn run_plan(plan: &Plan, init: &Image) -> Run {
                         tokio::time::sleep(Duration::from_micros(s.sleep_us)).await;
                     }
                     let delta = Arc::new(make_delta(&s));
-                    let fut = Traced { fut: Box::pin(h.write_durable(delta, s.ts)), id: s.id, world: Arc::clone(&world), started: false };
+                    if s.ff {
+                        {
+                            let mut w = world.lock().unwrap();
+                            w.log(Raw::SentFF(s.id));
+                            if let Some(b) = w.bytes_of.get(&s.id).cloned() {
+                                w.unappended.entry(b).or_default().push_back(s.id);
+                            }
+                        }
+                        h.write_fire_and_forget(delta, s.ts_off + s.ts);
+                        continue;
+                    }
+                    let fut = Traced { fut: Box::pin(h.write_durable(delta, s.ts_off + s.ts)), id: s.id, world: Arc::clone(&world), started: false };
                     let r = fut.await;
                     let mut w = world.lock().unwrap();
                     let n = w.ncalls;
@@ -610,6 +655,10 @@ fn run_plan(plan: &Plan, init: &Image) -> Run {
         }
     }
     sent.retain(|id| !unhandled.contains(id));
+    // writes whose write_durable gave up after its 5 s timeout: handled by the actor as usual,
+    // but the ack it resolves later reaches nobody
+    let silent: BTreeSet<u64> = w.results.iter().filter(|(_, r)| matches!(r, Err(e) if e.contains("timed out"))).map(|(id, _)| *id).collect();
+    let ff_ids: BTreeSet<u64> = plan.tasks.iter().flatten().filter(|s| s.ff).map(|s| s.id).collect();
     let mut items = Vec::new();
     let mut items_t: Vec<u64> = Vec::new();
     let mut n_trunc = 0usize;
@@ -639,7 +688,7 @@ fn run_plan(plan: &Plan, init: &Image) -> Run {
                     items_t.push(w.raw_t[p]);
                 }
             }
-            Raw::Wake(id) if unhandled.contains(id) => {}
+            Raw::Wake(id) if unhandled.contains(id) || silent.contains(id) => {}
             Raw::Sent(id) if *id == SHUT_ID || unhandled.contains(id) => {}
             Raw::Wake(id) if last_wake.get(id) == Some(&p) => {
                 let ok = matches!(w.results.get(id), Some(Ok(())));
@@ -672,12 +721,20 @@ fn run_plan(plan: &Plan, init: &Image) -> Run {
         match it {
             Item::Io(Call::Ent(_, id, sz), o) => {
                 if mentioned.insert(*id) {
-                    sched.push(Sched::Write(*id, *sz));
+                    sched.push(if ff_ids.contains(id) { Sched::WriteFF(*id, *sz) } else { Sched::Write(*id, *sz) });
                 }
-                if *o == Outc::Ok {
+                if *o == Outc::Ok && !ff_ids.contains(id) && !silent.contains(id) {
                     pending.insert(*id);
                 }
                 in_burst = false;
+            }
+            Item::Io(Call::Sync(_), Outc::Ok) if !matches!(items.get(ix + 1), Some(Item::Io(Call::Create(_), _)) | Some(Item::Ack(..))) => {
+                // an fsync that is neither the one rotate() issues (a create follows) nor
+                // followed by acks: a flush of a batch in which nobody waits for an ack
+                // (fire-and-forget entries, writers that timed out)
+                sched.push(Sched::Flush);
+                burst_t = items_t[ix];
+                in_burst = true;
             }
             Item::Io(_, _) => in_burst = false,
             Item::Ack(id, _) => {
@@ -760,6 +817,7 @@ fn run_plan(plan: &Plan, init: &Image) -> Run {
     Run {
         items,
         shutdown_with_pending,
+        silent: silent.iter().copied().collect(),
         sched,
         sent,
         results: w.results.clone(),
@@ -776,6 +834,100 @@ fn run_plan(plan: &Plan, init: &Image) -> Run {
     }
 }
 
+// ------------------------------------------------------------------ the repo's own stores
+
+/// The same writers on one of the repo's own stores (no faults, no tracing): every write
+/// reported durable must be read back - from the InMemoryWalStore after its own
+/// simulate_crash(), from the LocalWalStore (real files, sync_all) by a fresh store object
+/// on the same directory.  Returns a description of what is missing, if anything.
+fn run_on_repo_store(plan: &Plan, local_dir: Option<&std::path::Path>) -> Option<String> {
+    use redis_sim::streaming::wal_store::LocalWalStore;
+    let cfg = WalConfig {
+        enabled: true,
+        wal_dir: std::path::PathBuf::from("/nonexistent/c09"),
+        fsync_policy: FsyncPolicy::Always,
+        max_file_size: plan.max_file_size,
+        group_commit_max_entries: plan.max_entries,
+        group_commit_max_wait: Duration::from_micros(plan.max_wait_us.min(4000)),
+        truncation_check_interval: Duration::from_secs(3600),
+    };
+    let rt = tokio::runtime::Builder::new_current_thread().enable_time().start_paused(true).build().unwrap();
+    let mem = InMemoryWalStore::new();
+    let acked: Arc<Mutex<Vec<Vec<u8>>>> = Arc::new(Mutex::new(Vec::new()));
+    let mut err = None;
+    rt.block_on(async {
+        let spawned = match local_dir {
+            Some(d) => LocalWalStore::new(d.to_path_buf()).and_then(|s| spawn_wal_actor(s, cfg)),
+            None => spawn_wal_actor(mem.clone(), cfg),
+        };
+        let (handle, task) = match spawned {
+            Ok(x) => x,
+            Err(e) => {
+                err = Some(format!("spawn_wal_actor failed: {}", e));
+                return;
+            }
+        };
+        let mut joins = Vec::new();
+        for t in &plan.tasks {
+            let h = handle.clone();
+            let specs = t.clone();
+            let acked = Arc::clone(&acked);
+            joins.push(tokio::spawn(async move {
+                for s in specs {
+                    if s.sleep_us > 0 {
+                        tokio::time::sleep(Duration::from_micros(s.sleep_us)).await;
+                    }
+                    let delta = Arc::new(make_delta(&s));
+                    if s.ff {
+                        h.write_fire_and_forget(delta, s.ts_off + s.ts);
+                    } else if h.write_durable(delta, s.ts_off + s.ts).await.is_ok() {
+                        acked.lock().unwrap().push(entry_bytes(&s));
+                    }
+                }
+            }));
+        }
+        for j in joins {
+            let _ = j.await;
+        }
+        handle.shutdown().await;
+        drop(handle);
+        if task.await.is_err() {
+            err = Some("the WAL actor task panicked".to_string());
+        }
+    });
+    drop(rt);
+    if err.is_some() {
+        return err;
+    }
+    let entries = match local_dir {
+        Some(d) => LocalWalStore::new(d.to_path_buf()).and_then(|s| WalRotator::new(s, plan.max_file_size)).and_then(|r| r.recover_all_entries()),
+        None => {
+            mem.simulate_crash();
+            WalRotator::new(mem.clone(), plan.max_file_size).and_then(|r| r.recover_all_entries())
+        }
+    };
+    let entries = match entries {
+        Ok(e) => e,
+        Err(e) => return Some(format!("recovery failed: {}", e)),
+    };
+    let mut have: BTreeMap<Vec<u8>, usize> = BTreeMap::new();
+    for e in &entries {
+        *have.entry(e.encode()).or_insert(0) += 1;
+    }
+    let mut missing = 0usize;
+    for b in acked.lock().unwrap().iter() {
+        match have.get_mut(b) {
+            Some(n) if *n > 0 => *n -= 1,
+            _ => missing += 1,
+        }
+    }
+    if missing > 0 {
+        Some(format!("{} of {} writes reported durable are not read back ({} entries recovered)", missing, acked.lock().unwrap().len(), entries.len()))
+    } else {
+        None
+    }
+}
+
 // ------------------------------------------------------------------ generators
 
 fn entry_size(s: &WriteSpec) -> usize {
@@ -788,19 +940,19 @@ fn fixed_plan(i: u64) -> Option<Plan> {
     let six = |sleep: u64| -> Vec<Vec<WriteSpec>> { (1..=6).map(|id| vec![spec(id, id, 2, sleep)]).collect() };
     match i {
         // 6 concurrent durable writes, max_file_size 200: the batch straddles rotations
-        0 => Some(Plan { max_file_size: 200, max_entries: 8, max_wait_us: 50, tasks: six(0), faults: BTreeMap::new(), shutdown_at_us: None, truncs: Vec::new() }),
+        0 => Some(Plan { max_file_size: 200, max_entries: 8, max_wait_us: 50, tasks: six(0), faults: BTreeMap::new(), shutdown_at_us: None, truncs: Vec::new(), ts_off: 0 }),
         // one file; the append of the 4th entry of the batch fails with nothing written
-        1 => Some(Plan { max_file_size: 1 << 20, max_entries: 8, max_wait_us: 50, tasks: six(0), faults: [(5usize, Fault { kind: 0, frac: 0 })].into_iter().collect(), shutdown_at_us: None, truncs: Vec::new() }),
+        1 => Some(Plan { max_file_size: 1 << 20, max_entries: 8, max_wait_us: 50, tasks: six(0), faults: [(5usize, Fault { kind: 0, frac: 0 })].into_iter().collect(), shutdown_at_us: None, truncs: Vec::new(), ts_off: 0 }),
         // partial append in the middle of the batch
-        2 => Some(Plan { max_file_size: 1 << 20, max_entries: 8, max_wait_us: 50, tasks: six(0), faults: [(4usize, Fault { kind: 2, frac: 40 })].into_iter().collect(), shutdown_at_us: None, truncs: Vec::new() }),
+        2 => Some(Plan { max_file_size: 1 << 20, max_entries: 8, max_wait_us: 50, tasks: six(0), faults: [(4usize, Fault { kind: 2, frac: 40 })].into_iter().collect(), shutdown_at_us: None, truncs: Vec::new(), ts_off: 0 }),
         // rotation in the batch and the new file cannot be created
-        3 => Some(Plan { max_file_size: 200, max_entries: 8, max_wait_us: 50, tasks: six(0), faults: [(4usize, Fault { kind: 0, frac: 0 })].into_iter().collect(), shutdown_at_us: None, truncs: Vec::new() }),
+        3 => Some(Plan { max_file_size: 200, max_entries: 8, max_wait_us: 50, tasks: six(0), faults: [(4usize, Fault { kind: 0, frac: 0 })].into_iter().collect(), shutdown_at_us: None, truncs: Vec::new(), ts_off: 0 }),
         // Shutdown arrives inside the group-commit wait window of an open batch and the final fsync fails
-        4 => Some(Plan { max_file_size: 1 << 20, max_entries: 8, max_wait_us: 50, tasks: six(0), faults: [(8usize, Fault { kind: 0, frac: 0 })].into_iter().collect(), shutdown_at_us: Some(10), truncs: Vec::new() }),
+        4 => Some(Plan { max_file_size: 1 << 20, max_entries: 8, max_wait_us: 50, tasks: six(0), faults: [(8usize, Fault { kind: 0, frac: 0 })].into_iter().collect(), shutdown_at_us: Some(10), truncs: Vec::new(), ts_off: 0 }),
         // the same, the final fsync succeeds
-        5 => Some(Plan { max_file_size: 1 << 20, max_entries: 8, max_wait_us: 50, tasks: six(0), faults: BTreeMap::new(), shutdown_at_us: Some(10), truncs: Vec::new() }),
+        5 => Some(Plan { max_file_size: 1 << 20, max_entries: 8, max_wait_us: 50, tasks: six(0), faults: BTreeMap::new(), shutdown_at_us: Some(10), truncs: Vec::new(), ts_off: 0 }),
         // Shutdown queued behind a batch that straddles a rotation; the final fsync fails
-        6 => Some(Plan { max_file_size: 200, max_entries: 64, max_wait_us: 200, tasks: six(0), faults: [(11usize, Fault { kind: 0, frac: 0 })].into_iter().collect(), shutdown_at_us: Some(0), truncs: Vec::new() }),
+        6 => Some(Plan { max_file_size: 200, max_entries: 64, max_wait_us: 200, tasks: six(0), faults: [(11usize, Fault { kind: 0, frac: 0 })].into_iter().collect(), shutdown_at_us: Some(0), truncs: Vec::new(), ts_off: 0 }),
         _ => None,
     }
 }
@@ -815,33 +967,33 @@ fn fixed_history(i: u64) -> Option<Vec<(Plan, Option<usize>)>> {
         // rotation, crash between the creation of the new file and its first fsync, restart,
         // more writes: the new incarnation must not reuse (truncate) wal-00000001.wal
         7 => {
-            let a = Plan { max_file_size: 200, max_entries: 3, max_wait_us: 50, tasks: (1..=6).map(|id| one(id, 0)).collect(), faults: BTreeMap::new(), shutdown_at_us: None, truncs: Vec::new() };
-            let b = Plan { max_file_size: 200, max_entries: 3, max_wait_us: 50, tasks: (7..=8).map(|id| one(id, 0)).collect(), faults: BTreeMap::new(), shutdown_at_us: None, truncs: Vec::new() };
+            let a = Plan { max_file_size: 200, max_entries: 3, max_wait_us: 50, tasks: (1..=6).map(|id| one(id, 0)).collect(), faults: BTreeMap::new(), shutdown_at_us: None, truncs: Vec::new(), ts_off: 0 };
+            let b = Plan { max_file_size: 200, max_entries: 3, max_wait_us: 50, tasks: (7..=8).map(|id| one(id, 0)).collect(), faults: BTreeMap::new(), shutdown_at_us: None, truncs: Vec::new(), ts_off: 0 };
             Some(vec![(a, Some(8)), (b, None)])
         }
         // a closed file holds the stamps 5, 1, 3 (in that order); TruncateUpTo(3) must keep it
         8 => Some(vec![(
-            Plan { max_file_size: 200, max_entries: 8, max_wait_us: 50, tasks: vec![one(5, 0), one(1, 0), one(3, 0), one(9, 2000)], faults: BTreeMap::new(), shutdown_at_us: None, truncs: vec![(5000, 3)] },
+            Plan { max_file_size: 200, max_entries: 8, max_wait_us: 50, tasks: vec![one(5, 0), one(1, 0), one(3, 0), one(9, 2000)], faults: BTreeMap::new(), shutdown_at_us: None, truncs: vec![(5000, 3)], ts_off: 0 },
             None,
         )]),
         // the same with TruncateUpTo(5): the file may go, 9 must stay
         9 => Some(vec![(
-            Plan { max_file_size: 200, max_entries: 8, max_wait_us: 50, tasks: vec![one(5, 0), one(1, 0), one(3, 0), one(9, 2000)], faults: BTreeMap::new(), shutdown_at_us: None, truncs: vec![(5000, 5)] },
+            Plan { max_file_size: 200, max_entries: 8, max_wait_us: 50, tasks: vec![one(5, 0), one(1, 0), one(3, 0), one(9, 2000)], faults: BTreeMap::new(), shutdown_at_us: None, truncs: vec![(5000, 5)], ts_off: 0 },
             None,
         )]),
         // stamps 1,1,2,2,3,3 sent sequentially, one entry per file: a rotation between every pair
         10 => Some(vec![(
-            Plan { max_file_size: 17, max_entries: 8, max_wait_us: 50, tasks: vec![(1..=6u64).map(|k| spec((k + 1) / 2, k, 2, 0)).collect()], faults: BTreeMap::new(), shutdown_at_us: None, truncs: Vec::new() },
+            Plan { max_file_size: 17, max_entries: 8, max_wait_us: 50, tasks: vec![(1..=6u64).map(|k| spec((k + 1) / 2, k, 2, 0)).collect()], faults: BTreeMap::new(), shutdown_at_us: None, truncs: Vec::new(), ts_off: 0 },
             None,
         )]),
         // the same stamps as one concurrent batch, three entries per file: the rotation falls between the two 2s
         11 => Some(vec![(
-            Plan { max_file_size: 200, max_entries: 8, max_wait_us: 50, tasks: (1..=6u64).map(|k| vec![spec((k + 1) / 2, k, 2, 0)]).collect(), faults: BTreeMap::new(), shutdown_at_us: None, truncs: Vec::new() },
+            Plan { max_file_size: 200, max_entries: 8, max_wait_us: 50, tasks: (1..=6u64).map(|k| vec![spec((k + 1) / 2, k, 2, 0)]).collect(), faults: BTreeMap::new(), shutdown_at_us: None, truncs: Vec::new(), ts_off: 0 },
             None,
         )]),
         // identical content written three times (same key, value, stamp), one entry per file
         12 => Some(vec![(
-            Plan { max_file_size: 17, max_entries: 8, max_wait_us: 50, tasks: vec![(1..=3u64).map(|k| WriteSpec { id: 7 * 1024 + k, ts: 7, key: 1, vlen: 2, replica: 1, sleep_us: 0 }).collect()], faults: BTreeMap::new(), shutdown_at_us: None, truncs: Vec::new() },
+            Plan { max_file_size: 17, max_entries: 8, max_wait_us: 50, tasks: vec![(1..=3u64).map(|k| WriteSpec { id: 7 * 1024 + k, ts: 7, key: 1, vlen: 2, replica: 1, sleep_us: 0, ts_off: 0, ff: false }).collect()], faults: BTreeMap::new(), shutdown_at_us: None, truncs: Vec::new(), ts_off: 0 },
             None,
         )]),
         _ => None,
@@ -862,6 +1014,22 @@ struct Flavour {
     eq_vlen: Option<usize>,
     /// some writes repeat the whole content (key, value, stamp, replica) of an earlier one
     dup_content: bool,
+    /// added to every stamp on the wire: 0, near 2^32, near 2^63, near u64::MAX
+    ts_off: u64,
+    /// some writes go through write_fire_and_forget (fault-free histories)
+    ff: bool,
+    /// group_commit_max_wait = 6 s with batches that never fill: write_durable's 5 s timeout fires
+    timeout: bool,
+    /// the store holds leftovers when the first incarnation starts
+    leftovers: bool,
+    /// 0 = usual sizes; 1 = a batch of 66..130 concurrent writers; 2 = 257..300 (channel capacity 256); 3 = a few KiB..1 MiB values
+    big: u8,
+    thorough: bool,
+}
+impl Flavour {
+    fn fault_free(&self) -> bool {
+        self.dup_content || self.ff || self.timeout
+    }
 }
 
 /// Stamps of n writes, in the order in which they reach the actor when the writes are
@@ -906,7 +1074,16 @@ fn gen_tasks(rng: &mut Rng, first_serial: u64, fl: Flavour, labels: &mut Vec<Str
     let sleeps = [0u64, 0, 10, 1000, 1000, 2000, 2000, 3000, 5000];
     let mode = rng.gen_range(0..100u32);
     // shape: (number of tasks, writes per task, concurrent?)
-    let counts: Vec<usize> = if mode < 22 {
+    let counts: Vec<usize> = if fl.big == 1 {
+        labels.push("writers:one-concurrent-batch-of-66..130".into());
+        vec![1; *[66usize, 127, 128, 129, 130].get(rng.gen_range(0..5)).unwrap()]
+    } else if fl.big == 2 {
+        labels.push("writers:one-concurrent-batch-of-255..300(channel-capacity-256)".into());
+        vec![1; *[255usize, 256, 257, 300].get(rng.gen_range(0..4)).unwrap()]
+    } else if fl.timeout {
+        labels.push("writers:few(5s-timeout-fires)".into());
+        vec![1; rng.gen_range(1..=4usize)]
+    } else if mode < 22 {
         labels.push("writers:one-task-sequential".into());
         vec![rng.gen_range(2..=10usize)]
     } else if mode < 44 {
@@ -916,7 +1093,7 @@ fn gen_tasks(rng: &mut Rng, first_serial: u64, fl: Flavour, labels: &mut Vec<Str
         labels.push("writers:mixed".into());
         (0..rng.gen_range(1..=6usize)).map(|_| rng.gen_range(1..=4usize)).collect()
     };
-    let concurrent = mode < 44 || rng.gen_bool(0.6);
+    let concurrent = fl.big == 1 || fl.big == 2 || fl.timeout || mode < 44 || rng.gen_bool(0.6);
     let n: usize = counts.iter().sum();
     // stamps may also repeat across incarnations: restart low now and then
     let base = if rng.gen_bool(0.5) { 0 } else { first_serial };
@@ -930,9 +1107,16 @@ fn gen_tasks(rng: &mut Rng, first_serial: u64, fl: Flavour, labels: &mut Vec<Str
             (0..*c)
                 .map(|_| {
                     serial += 1;
-                    let vlen = fl.eq_vlen.unwrap_or_else(|| *[0usize, 1, 2, 2, 5, 17, 40].get(rng.gen_range(0..7)).unwrap());
+                    let vlen = if fl.big == 3 && rng.gen_bool(0.4) {
+                        let sizes: &[usize] = if fl.thorough { &[4095, 4096, 8192, 65535, 65536, 65537, 1 << 20] } else { &[4095, 4096, 8192, 65536] };
+                        sizes[rng.gen_range(0..sizes.len())]
+                    } else {
+                        fl.eq_vlen.unwrap_or_else(|| *[0usize, 1, 2, 2, 5, 17, 40].get(rng.gen_range(0..7)).unwrap())
+                    };
                     let sleep_us = if concurrent { 0 } else { sleeps[rng.gen_range(0..sleeps.len())] };
-                    let s = spec(stamps[k], serial, vlen, sleep_us);
+                    let mut s = spec(stamps[k], serial, vlen, sleep_us);
+                    s.ts_off = fl.ts_off;
+                    s.ff = fl.ff && rng.gen_bool(0.4);
                     k += 1;
                     s
                 })
@@ -948,7 +1132,7 @@ fn gen_tasks(rng: &mut Rng, first_serial: u64, fl: Flavour, labels: &mut Vec<Str
                 let src = &flat[rng.gen_range(0..flat.len())];
                 if src.id != s.id {
                     let serial = s.id % 1024;
-                    *s = WriteSpec { id: src.ts * 1024 + serial, ts: src.ts, key: src.key, vlen: src.vlen, replica: src.replica, sleep_us: s.sleep_us };
+                    *s = WriteSpec { id: src.ts * 1024 + serial, ts: src.ts, key: src.key, vlen: src.vlen, replica: src.replica, sleep_us: s.sleep_us, ts_off: src.ts_off, ff: false };
                 }
             }
             first = false;
@@ -964,14 +1148,21 @@ fn gen_shape(rng: &mut Rng, tasks: &[Vec<WriteSpec>], fl: Flavour) -> Shape {
     let per_file = rng.gen_range(0..=5usize);
     let max_file_size = if fl.eq_vlen.is_some() && rng.gen_bool(0.7) {
         // exactly k entries per file: over the cases the rotation point falls between every adjacent pair
-        WAL_HEADER_SIZE + rng.gen_range(1..=4usize) * avg
+        // ... and one byte below / above the exact multiple
+        WAL_HEADER_SIZE + rng.gen_range(1..=4usize) * avg + *[0usize, 0, 1].get(rng.gen_range(0..3)).unwrap() - *[0usize, 0, 1].get(rng.gen_range(0..3)).unwrap()
     } else if per_file == 5 {
         1 << 20
     } else {
         WAL_HEADER_SIZE + 1 + per_file * avg + rng.gen_range(0..avg)
     };
-    let max_entries = *[1usize, 2, 3, 4, 8, 8, 64].get(rng.gen_range(0..7)).unwrap();
-    let max_wait_us = *[0u64, 50, 50, 200, 2000, 4000].get(rng.gen_range(0..6)).unwrap();
+    let max_entries = if fl.big == 1 || fl.big == 2 {
+        *[63usize, 64, 65, 128, 256, 1000].get(rng.gen_range(0..6)).unwrap()
+    } else if fl.timeout {
+        64
+    } else {
+        *[1usize, 2, 3, 4, 8, 8, 64, 63, 65].get(rng.gen_range(0..9)).unwrap()
+    };
+    let max_wait_us = if fl.timeout { 6_000_000 } else { *[0u64, 50, 50, 200, 2000, 4000].get(rng.gen_range(0..6)).unwrap() };
     Shape { max_file_size, max_entries, max_wait_us }
 }
 
@@ -1071,6 +1262,7 @@ fn c_item(i: &Item) -> String {
 fn c_sched(s: &Sched) -> String {
     match s {
         Sched::Write(id, sz) => format!("SW {} {}", id, sz),
+        Sched::WriteFF(id, sz) => format!("SWF {} {}", id, sz),
         Sched::Flush => "SF".to_string(),
         Sched::Shutdown => "SD".to_string(),
         Sched::Trunc(t) => format!("ST {}", t),
@@ -1123,7 +1315,21 @@ fn main() {
         let fixed = fixed_history(i);
         let fl = {
             let mut r = case_rng(args.seed ^ 0xF1A7, i);
-            Flavour { eq_vlen: if r.gen_bool(0.5) { Some(*[0usize, 2, 5, 17].get(r.gen_range(0..4)).unwrap()) } else { None }, dup_content: r.gen_range(0..100u32) < 8 }
+            let eq_vlen = if r.gen_bool(0.5) { Some(*[0usize, 2, 5, 17].get(r.gen_range(0..4)).unwrap()) } else { None };
+            let dup_content = r.gen_range(0..100u32) < 8;
+            let ts_off = *[0u64, 0, 0, 0, (1 << 32) - 20, (1u64 << 63) - 20, u64::MAX - 2000].get(r.gen_range(0..7)).unwrap();
+            let x = r.gen_range(0..1000u32);
+            let thorough = multi != 0;
+            Flavour {
+                eq_vlen,
+                dup_content,
+                ts_off,
+                ff: !dup_content && x < 100,
+                timeout: !dup_content && (100..115).contains(&x),
+                leftovers: r.gen_range(0..100u32) < 10,
+                big: if (200..206).contains(&x) { 1 } else if (212..214).contains(&x) { 2 } else if (300..315).contains(&x) { 3 } else { 0 },
+                thorough,
+            }
         };
         if fixed.is_none() {
             if fl.eq_vlen.is_some() {
@@ -1131,6 +1337,18 @@ fn main() {
             }
             if fl.dup_content {
                 flabels.push("writes-with-identical-content(no-faults)".into());
+            }
+            if fl.ts_off != 0 {
+                flabels.push(format!("stamps-offset-by:{}", if fl.ts_off < 1 << 33 { "2^32-20" } else if fl.ts_off < 1 << 63 { "2^63-20" } else { "u64::MAX-2000" }));
+            }
+            if fl.ff {
+                flabels.push("some-writes-fire-and-forget(no-faults)".into());
+            }
+            if fl.leftovers {
+                flabels.push("store-starts-with-leftovers(empty-wal-9,torn-header-wal-3,foreign-files)".into());
+            }
+            if fl.big == 3 {
+                flabels.push("values-of-4KiB..1MiB".into());
             }
         }
         let (shape, n_inc) = match &fixed {
@@ -1142,6 +1360,15 @@ fn main() {
             }
         };
         let mut image: Image = BTreeMap::new();
+        if fixed.is_none() && fl.leftovers {
+            // what earlier processes may have left behind: a WAL file whose header was torn, an empty
+            // WAL file with a high sequence number, files that are not WAL files at all
+            image.insert("wal-00000003.wal".into(), (b"RWA".to_vec(), vec![3], vec![None]));
+            image.insert("wal-00000009.wal".into(), (Vec::new(), Vec::new(), Vec::new()));
+            image.insert("manifest.json.tmp".into(), (b"{\"segments\":[".to_vec(), vec![13], vec![None]));
+            image.insert("wal-zz.wal".into(), (vec![0u8; 40], vec![40], vec![None]));
+        }
+        let init_term = if fixed.is_none() && fl.leftovers { "[(3, [TN]); (9, [])]" } else { "[]" };
         let mut keep: Vec<(u64, usize)> = Vec::new();
         let mut prior_acked: Vec<u64> = Vec::new();
         let mut next_id = 0u64;
@@ -1172,8 +1399,8 @@ fn main() {
                             truncs.push((times[rng.gen_range(0..times.len())], t));
                         }
                     }
-                    let mut plan = Plan { max_file_size: shape.max_file_size, max_entries: shape.max_entries, max_wait_us: shape.max_wait_us, tasks, faults: BTreeMap::new(), shutdown_at_us, truncs };
-                    if fl.dup_content {
+                    let mut plan = Plan { max_file_size: shape.max_file_size, max_entries: shape.max_entries, max_wait_us: shape.max_wait_us, tasks, faults: BTreeMap::new(), shutdown_at_us, truncs, ts_off: fl.ts_off };
+                    if fl.fault_free() {
                         flabels.push("faults:0".into());
                     } else {
                         flabels.push(plant_faults(&mut rng, &mut plan, &image, multi));
@@ -1194,7 +1421,8 @@ fn main() {
             let fresh: Vec<usize> = (0..=run.ncalls)
                 .filter(|j| {
                     let sn = &run.snaps[*j];
-                    sn.len() >= 2 && sn.iter().max_by_key(|x| seq_of(&x.0)).map(|x| x.2 == 0).unwrap_or(false)
+                    let wal: Vec<_> = sn.iter().filter(|x| seq_of(&x.0) != u64::MAX).collect();
+                    wal.len() >= 2 && wal.iter().max_by_key(|x| seq_of(&x.0)).map(|x| x.2 == 0).unwrap_or(false)
                 })
                 .collect();
             let crash_at = match &fixed {
@@ -1218,7 +1446,9 @@ fn main() {
                     let kept = if spare { rng.gen_range(sure..=have) } else { sure };
                     let cut = if kept == 0 { 0 } else { f.ends[kept - 1] };
                     next_image.insert(name.clone(), (f.data[..cut].to_vec(), f.ends[..kept].to_vec(), f.item_ids[..kept].to_vec()));
-                    next_keep.push((seq_of(name), kept));
+                    if seq_of(name) != u64::MAX {
+                        next_keep.push((seq_of(name), kept));
+                    }
                 }
             }
             let acked_here = run.acked_at[crash_at].clone();
@@ -1227,6 +1457,26 @@ fn main() {
             prior_acked.sort();
             image = next_image;
             keep = next_keep;
+        }
+        // ---------------- the same writers on the repo's own stores
+        if i % 4 == 1 || i % 16 == 2 {
+            let p0 = &incs[0].plan;
+            out.impl_checks += 1;
+            if i % 16 == 2 {
+                let dir = std::env::temp_dir().join(format!("c09-local-{}-{}", std::process::id(), i));
+                let _ = std::fs::remove_dir_all(&dir);
+                let r = run_on_repo_store(p0, Some(&dir));
+                let _ = std::fs::remove_dir_all(&dir);
+                out.count("also-run-on:LocalWalStore(real-files)");
+                if let Some(m) = r {
+                    out.violation(i, &format!("on LocalWalStore: {}", m), json!({"max_file_size": p0.max_file_size, "max_entries": p0.max_entries}));
+                }
+            } else {
+                out.count("also-run-on:InMemoryWalStore+simulate_crash");
+                if let Some(m) = run_on_repo_store(p0, None) {
+                    out.violation(i, &format!("on InMemoryWalStore after simulate_crash(): {}", m), json!({"max_file_size": p0.max_file_size, "max_entries": p0.max_entries}));
+                }
+            }
         }
         // ---------------- direct oracle on the implementation, every incarnation, every instant
         let describe = |inc: &Incarnation| -> Value {
@@ -1279,16 +1529,36 @@ fn main() {
             let mut first_bad_returned: Option<usize> = None;
             let mut bad_payload: Vec<(usize, String)> = Vec::new();
             let show = |ids: &[u64]| -> Vec<Value> { ids.iter().map(|id| specs.get(id).map(|s| json!({"name": s.id, "stamp": s.ts, "key": format!("k{:03}", s.key), "value_len": s.vlen, "replica": s.replica})).unwrap_or(json!(id))).collect() };
-            let mut cache: BTreeMap<Vec<(String, usize, usize, usize)>, Vec<u64>> = BTreeMap::new();
+            let mut cache: BTreeMap<Vec<(String, usize, usize)>, Vec<u64>> = BTreeMap::new(); // keyed by (file, generation, synced length)
+            // long runs (batches of hundreds of writers): the instants right after an fsync or a
+            // delete, every 8th other one, and the last
+            let mut after: BTreeSet<usize> = BTreeSet::new();
+            {
+                let mut calls = 0usize;
+                for it in &run.items {
+                    if let Item::Io(c, _) = it {
+                        calls += 1;
+                        if matches!(c, Call::Sync(_) | Call::Del(_)) {
+                            after.insert(calls);
+                        }
+                    }
+                }
+            }
+            let is_last_inc = k + 1 == incs.len();
             for j in 0..=run.ncalls {
+                if run.ncalls > 120 && !is_last_inc && !(after.contains(&j) || j % 8 == 0 || j == run.ncalls) {
+                    continue;
+                }
+                let skip_spared = run.ncalls > 120 && !(after.contains(&j) || j % 8 == 0 || j == run.ncalls);
                 out.impl_checks += 2;
-                let rec_ids = match cache.get(&run.snaps[j]) {
+                let ckey: Vec<(String, usize, usize)> = run.snaps[j].iter().map(|x| (x.0.clone(), x.1, x.2)).collect();
+                let rec_ids = match cache.get(&ckey) {
                     Some(r) => r.clone(),
                     None => {
                         let (img, truth) = run.image_at(j, |synced, _| synced);
                         let (ids, bad) = recover_image(&img, &truth, inc.plan.max_file_size, &all_bytes);
                         bad_payload.extend(bad.into_iter().map(|b| (j, b)));
-                        cache.insert(run.snaps[j].clone(), ids.clone());
+                        cache.insert(ckey, ids.clone());
                         ids
                     }
                 };
@@ -1308,8 +1578,8 @@ fn main() {
                     first_bad_returned = Some(j);
                 }
                 // a crash that spares a random part (byte granularity) of the unsynced tails
-                let (cuts, truth2) = run.image_at(j, |synced, len| rng.gen_range(synced..=len));
-                let (ids2, bad2) = recover_image(&cuts, &truth2, inc.plan.max_file_size, &all_bytes);
+                let (cuts, truth2) = if skip_spared { run.image_at(j, |synced, _| synced) } else { run.image_at(j, |synced, len| rng.gen_range(synced..=len)) };
+                let (ids2, bad2) = if skip_spared { (rec_ids.clone(), Vec::new()) } else { recover_image(&cuts, &truth2, inc.plan.max_file_size, &all_bytes) };
                 bad_payload.extend(bad2.into_iter().map(|b| (j, b)));
                 let rec2: BTreeSet<u64> = ids2.iter().copied().collect();
                 let lost2: Vec<u64> = acked.iter().copied().filter(|x| !rec2.contains(x)).collect();
@@ -1343,7 +1613,7 @@ fn main() {
             let newly: Vec<u64> = inc.prior_acked.iter().copied().filter(|w| exempt(*w, at, true, &exempt_prior)).chain(run.acked_at[at].iter().copied().filter(|w| exempt(*w, at, false, &exempt_prior))).collect();
             exempt_prior.extend(newly);
             if !bad_payload.is_empty() {
-                out.violation(i, "recovery returned an entry that is not (bit for bit) an entry written to that image, or more copies of one than were written", json!({"instants_and_entries": bad_payload, "run": describe(inc)}));
+                out.violation(i, "recovery returned an entry that is not (bit for bit) an entry written to that image, or more copies of one than were written, or recover_entries_after disagrees with recover_all_entries", json!({"instants_and_entries": bad_payload, "run": describe(inc)}));
             }
             if run.actor_panicked {
                 out.violation(i, "the WAL actor task panicked", describe(inc));
@@ -1388,7 +1658,8 @@ fn main() {
             let log = log_before_call(&inc.run.items, inc.crash_at);
             format!("I {} {} {}", clist(inc.keep.iter(), |(s, k)| format!("({}, {})", s, k)), clist(inc.run.sched.iter(), c_sched), clist(log.iter(), c_item))
         });
-        let term = format!("(K {} {} {} {})", shape.max_file_size, shape.max_entries, inc_terms, samples);
+        let silent_all: Vec<u64> = incs.iter().flat_map(|x| x.run.silent.iter().copied()).collect();
+        let term = format!("(K {} {} {} {} {} {})", shape.max_file_size, shape.max_entries, init_term, c_ids(&silent_all), inc_terms, samples);
         // ---------------- statistics
         let mut rotations = 0usize;
         let mut nfault = 0usize;
